@@ -405,7 +405,7 @@ pub struct Scaled {
     pub ctx: Ctx,
 }
 
-pub const SCALED_SHAPES: usize = 15;
+pub const SCALED_SHAPES: usize = 17;
 
 pub fn scaled(shape: usize, n: usize, salt: u64) -> Scaled {
     use crate::ast::{AssignOp, BinOp};
@@ -546,6 +546,58 @@ pub fn scaled(shape: usize, n: usize, salt: u64) -> Scaled {
                 e = if (i as u64 + salt) % 4 == 0 { Ast::Call("rec".into(), Box::new(e)) } else { Ast::Paren(Box::new(e)) };
             }
             ("n nesting levels of parentheses", e)
+        },
+        14 => {
+            // an unparenthesised run of n operands of ONE operator (left-deep by associativity), the
+            // operands being recorded calls, with one operand of the wrong type in the middle: the
+            // application that fails stops the evaluation right after its right operand
+            let (op, bad): (BinOp, Ast) = match salt % 4 {
+                0 => (BinOp::Add, Ast::Lit(RV::Bool(true))),
+                1 => (BinOp::Mul, Ast::Lit(RV::Str("x".into()))),
+                2 => (BinOp::And, lit(7)),
+                _ => (BinOp::Or, lit(7)),
+            };
+            let operand = |i: usize| -> Ast {
+                let v = if matches!(op, BinOp::And | BinOp::Or) { Ast::Lit(RV::Bool(matches!(op, BinOp::And))) } else { lit(i % 3) };
+                Ast::Call("rec".into(), Box::new(v))
+            };
+            let len = n.max(3);
+            let bad_at = (len + 1) / 2;
+            let mut e = operand(0);
+            for i in 1..len {
+                let rhs = if i == bad_at { bad.clone() } else { operand(i) };
+                e = Ast::Bin(op, Box::new(e), Box::new(rhs));
+            }
+            ("run of n operands of one operator with a failing application in the middle", e)
+        },
+        15 => {
+            // a long flat expression over all binary operators with prefixed operands, written without
+            // parentheses; its tree is whatever the reference parser says
+            bind(&mut ctx, 4);
+            let ops = ["+", "*", "-", "^", "<", "&&", "==", "/", "||", "%", ">=", "!=", "+", "*"];
+            let mut src = String::new();
+            let mut last_op = "";
+            for i in 0..n.max(2).min(170) {
+                if i > 0 {
+                    last_op = ops[((i as u64 * 5 + salt) % ops.len() as u64) as usize];
+                    src.push_str(&format!(" {} ", last_op));
+                }
+                // no prefixed operand directly behind `^` (D3)
+                let prefix = match (i as u64 * 7 + salt) % 5 {
+                    0 if last_op != "^" => "- ",
+                    1 if last_op != "^" => "! ",
+                    _ => "",
+                };
+                let base = if prefix == "! " { "true".to_string() } else if i % 3 == 0 { format!("v{}", i % 4) } else { format!("{}", i % 5 + 1) };
+                src.push_str(prefix);
+                src.push_str(&base);
+            }
+            let toks = crate::tok::lex(&src).expect("flat source lexes").toks;
+            let ast = match crate::parse::classify(&toks) {
+                crate::parse::Class::WellFormed(a) => a.strip_parens(),
+                _ => lit(0),
+            };
+            ("long flat expression over all operators with prefixed operands", ast)
         },
         _ => {
             // the failure sits at position n - 1 of a long chain: everything before must have happened
